@@ -12,7 +12,7 @@ from pathlib import Path
 from typing import Any, Dict, Iterable, List, Optional, Sequence, Tuple
 
 from hv import tlc
-from hv.common import ROOT, SPEC, Ctx, MachineryError
+from hv.common import REPO, ROOT, SPEC, Ctx, MachineryError
 
 # What the CURRENT TREE does at the deviation points named in HiveCore (TRUE = repaired behaviour).
 # If a flag is wrong the conformance check reports a DIVERGENCE at the corresponding action.
@@ -81,7 +81,7 @@ def produce(ctx: Ctx, items: List[Dict[str, Any]], *, nproc: int = 14, hashseed:
     batch = getattr(ctx, "_produce_batches", 0)
     ctx._produce_batches = batch + 1
     env = dict(os.environ)
-    env.update({"PYTHONPATH": f"{ROOT}:/repo", "NREL_HIVE_VERIF": "1", "PYTHONHASHSEED": hashseed,
+    env.update({"PYTHONPATH": f"{ROOT}:{REPO}", "NREL_HIVE_VERIF": "1", "PYTHONHASHSEED": hashseed,
                 "PYTHONWARNINGS": "ignore", "PYTHONDONTWRITEBYTECODE": "1"})
     for k, b in enumerate(buckets):
         if not b:
